@@ -166,6 +166,9 @@ func genValueFor(r *rand.Rand, prop string, vmode int) float64 {
 	if prop == "C01" && chance(r, 0.04) {
 		return pick(r, math.NaN(), math.NaN(), math.Inf(1), math.Inf(-1))
 	}
+	if prop == "C02" && chance(r, 0.02) {
+		return math.NaN()
+	}
 	return genValue(r, vmode)
 }
 
@@ -208,6 +211,12 @@ func genAge(r *rand.Rand, prop string, l Layout, id int, single bool) int64 {
 		case 2:
 			if single {
 				return -1
+			}
+			switch r.IntN(6) {
+			case 0:
+				return -between(r, 1, 3*l.Archs[0].S) // future-dated point in a batch
+			case 1:
+				return int64(946684800) + between(r, 0, 40*365*86400) // decades old (timestamps near 1970..2010)
 			}
 			return 0
 		case 3:
@@ -828,7 +837,7 @@ func (lr *libRun) c02Write(op LibOp, pts []model.Pt, now int64, pre, post []mode
 	e := lr.e
 	id := op.ID
 	for _, p := range pts {
-		if math.IsNaN(p.V) || math.IsInf(p.V, 0) {
+		if math.IsInf(p.V, 0) {
 			return
 		}
 	}
@@ -902,6 +911,7 @@ func (lr *libRun) c02Write(op LibOp, pts []model.Pt, now int64, pre, post []mode
 		ct = model.DedupeConsecutive(ct)
 		plan := model.PropagatePlan(fine, post[lvl-1], coarse, ct, method, xff)
 		want := pre[lvl].Clone()
+		valueFree := map[int64]bool{} // slots whose value is not prescribed (aggregate over a NaN)
 		var stored []int64
 		base := want[0].I
 		for _, st := range plan {
@@ -919,8 +929,19 @@ func (lr *libRun) c02Write(op LibOp, pts []model.Pt, now int64, pre, post []mode
 			if st.Known > 0 && model.XffBoundary(int64(st.Known), int64(st.Total), xff) {
 				e.Probe("xff-boundary-where-float32-and-rational-differ")
 			}
+			if verdict > 0 && math.IsNaN(st.Value) {
+				// a written NaN counts as a known value (its interval matches), as in
+				// both Whisper implementations; what the aggregate of a set containing
+				// NaN is, the statement does not say: only "stored" is checked
+				e.Probe("aggregate-over-a-written-NaN")
+				want[idx] = model.Slot{I: st.T, V: math.NaN()}
+				valueFree[idx] = true
+				stored = append(stored, st.T)
+				continue
+			}
 			if verdict > 0 {
 				want[idx] = model.Slot{I: st.T, V: st.Value}
+				valueFree[idx] = false
 				stored = append(stored, st.T)
 				e.Probe(fmt.Sprintf("stored/%s/level%d", methodName(method), lvl))
 				if int64(st.Known)*1_000_000 == int64(math.Round(xff*float64(st.Total)*1_000_000)) && xff > 0 {
@@ -930,6 +951,11 @@ func (lr *libRun) c02Write(op LibOp, pts []model.Pt, now int64, pre, post []mode
 				e.Probe("skipped/zero-known")
 			} else {
 				e.Probe("skipped/xff")
+			}
+		}
+		for k := range valueFree {
+			if valueFree[k] && post[lvl][k].I == want[k].I {
+				want[k].V = post[lvl][k].V
 			}
 		}
 		if i, ok := rawEqual(want, post[lvl]); !ok {
@@ -977,6 +1003,7 @@ func (lr *libRun) c03Write(op LibOp, pts []model.Pt, now int64, pre, post []mode
 		return out
 	}
 	// direct[a] = aligned intervals expected to be written directly in a
+	futureTouched := make([][]int64, len(archs))
 	direct := make([]map[int64]float64, len(archs))
 	touchedAll := make([]map[int64]bool, len(archs)) // every routed interval, overwritten laps included
 	for a := range direct {
@@ -1017,9 +1044,28 @@ func (lr *libRun) c03Write(op LibOp, pts []model.Pt, now int64, pre, post []mode
 			e.Violate("C03.batch-error", "UpdatePointsForArchive(id=%d) failed: %v", op.ID, callErr)
 			return
 		}
+		// future-dated points: the statement does not say what happens to them,
+		// but the in-range points of the same batch must still be stored. They
+		// are taken out of the routed set; the slots they may have written (in
+		// any archive) and their propagation targets are allowed to change, and
+		// an in-range point sharing a physical slot with one of them is not
+		// looked for.
+		var future []model.Pt
+		var normal []model.Pt
 		for _, p := range pts {
 			if p.T > now {
-				return // future points in a batch: not covered by the statement
+				future = append(future, p)
+			} else {
+				normal = append(normal, p)
+			}
+		}
+		if len(future) > 0 {
+			e.Probe("batch-with-a-future-dated-point")
+		}
+		pts = normal
+		for a := range archs {
+			for _, f := range future {
+				futureTouched[a] = append(futureTouched[a], model.Floor(f.T, archs[a].S))
 			}
 		}
 		shares, dropped := model.RouteBatch(archs, pts, op.ID, now)
@@ -1069,6 +1115,17 @@ func (lr *libRun) c03Write(op LibOp, pts []model.Pt, now int64, pre, post []mode
 				e.Note("c03-direct-write-is-also-propagation-target")
 				continue
 			}
+			collides := false
+			for f := 0; f <= a; f++ {
+				for _, If := range futureTouched[f] {
+					if model.FloorMod(model.Floor(If, archs[a].S)/archs[a].S, archs[a].N) == model.FloorMod(I/archs[a].S, archs[a].N) {
+						collides = true
+					}
+				}
+			}
+			if collides {
+				continue
+			}
 			if base == 0 {
 				e.Violate("C03.route", "point for interval %d (age %d) expected in archive %d, which is still empty after the call", I, now-I, a)
 				return
@@ -1096,6 +1153,11 @@ func (lr *libRun) c03Write(op LibOp, pts []model.Pt, now int64, pre, post []mode
 		}
 		for f := 0; f < a; f++ {
 			for I := range touchedAll[f] {
+				allowed[model.Floor(I, archs[a].S)] = true
+			}
+		}
+		for f := 0; f <= a; f++ {
+			for _, I := range futureTouched[f] {
 				allowed[model.Floor(I, archs[a].S)] = true
 			}
 		}
